@@ -9,6 +9,13 @@ Two specifications:
     off cppPreprocessor.cxx; TLC enumerates one input per mode path (VIEW) up to the cfg's length and
     this check verifies that every (mode, symbol) and (mode, EOF) transition of every mode is on a
     dumped path.
+  * LexModesIf (second lexer): the text of #if / #elif / computed #include / object-like #define is
+    rewritten by expand_manifests / expand_defined_function / expand_has_include_function /
+    CPPManifest::extract_args, which index the string by hand; the same enumeration over its modes.
+  * File roles: the spec's Parse("err") outcome (ToolRun dump) is realised with the erroneous text
+    in every role a file can have (command-line file first / second, quote-included from cwd /
+    includer's directory / -I / -S, angle-included via -S, nested two levels, mixed) for a syntax
+    error, #error and unterminated constructs: expected exit != 0, no output file, a diagnostic.
 Inputs = the LexModes dump (rendered under four preludes: `a` undefined / object-like macro /
 function-like macro / class template) + directive, constant-expression, literal, nesting and
 byte-level edge cases.  Each input is fed as source file to parse_file and to interrogate
@@ -28,10 +35,32 @@ TIMEOUT = {"hooked": 10, "asan": 40}     # seconds for an input below 10 kB; x6 
 SYM = {"a": "a", "0": "0", "dq": '"', "sq": "'", "bs": "\\", "nl": "\n", "hash": "#", "sl": "/", "st": "*",
        "lp": "(", "rp": ")", "lt": "<", "gt": ">", "sp": " ", "R": "R", "cm": ",", "dt": ".", "eq": "=",
        "pc": "%", "define": "define", "if": "if", "else": "else", "endif": "endif", "include": "include"}
+IF_CFG = {"quick": "LexModesIf_quick", "thorough": "LexModesIf_thorough"}
+SYMIF = {"F": "F", "G": "G", "O": "O", "u": "u", "defined": "defined", "hasinc": "__has_include", "L": "L", "n1": "1",
+         "sp": " ", "nl": "\\\n", "lp": "(", "rp": ")", "cm": ",", "dq": '"', "sq": "'", "bs": "\\", "lt": "<", "gt": ">"}
+IF_PRELUDE = "#define F(x) x\n#define G(x,y) x y\n#define O 1\n"
+IF_CONTEXTS = {
+    "if": "#if %s\nint kept;\n#endif\n",
+    "elif": "#if 0\n#elif %s\nint kept;\n#endif\n",
+    "include": "#include %s\nint after;\n",
+    "define": "#define X %s\nint x = X;\n",
+    "if-eof": "#if %s",
+}
 PRELUDE = {"none": "", "obj": "#define a 0\n", "fn": "#define a(x,y) x y\n",
            "tmpl": "template<class T> class a;\n"}
 OK_HEADER = "class Ok {\n__published:\n  Ok();\n  int value() const;\n};\n"
 SANITIZER = re.compile(r"ERROR: (Address|Leak|Undefined)Sanitizer|runtime error:|AddressSanitizer:|SUMMARY: \w+Sanitizer")
+def reported_errors(stderr):
+    """Number of error diagnostics the run printed: lines `[file:line:[col:]] error: ...` (a
+    `warning:` whose text happens to contain ` error: ` does not count)."""
+    n = 0
+    for ln in stderr.split("\n"):
+        i = ln.find(" error: ")
+        if i >= 0 and " warning: " not in ln[:i + 1]:
+            n += 1
+    return n
+
+
 DIAG = re.compile(r"rror|Unable to|failed to parse|warning:|Ignoring|Unknown type|Usage")
 
 
@@ -373,7 +402,8 @@ def as_arg(t):
 
 
 class Job:
-    __slots__ = ("jid", "name", "mode", "tool", "text", "extra", "dir", "args", "req", "res", "classes", "unreadable", "nfiles")
+    __slots__ = ("jid", "name", "mode", "tool", "text", "extra", "dir", "args", "req", "res", "classes", "unreadable", "nfiles",
+                 "role", "expect_err", "files")
 
 
 def make_jobs(inputs, modes_for, work):
@@ -389,6 +419,8 @@ def make_jobs(inputs, modes_for, work):
             j.jid, j.name, j.mode, j.text, j.extra = len(jobs), name, mode, text, extra
             j.dir = os.path.join(work, "j%06d" % j.jid)
             j.req, j.unreadable, j.nfiles = [], False, 1
+            j.role, j.expect_err, j.files = {"pf": "command-line", "ig": "command-line", "inc": "quote-include",
+                                             "N": "command-file", "D": "-D definition"}[mode], False, None
             if mode == "pf":
                 j.tool, j.args = "parse_file", ["t.h"]
             elif mode == "ig":
@@ -410,6 +442,11 @@ def make_jobs(inputs, modes_for, work):
 
 def materialise(j):
     os.makedirs(j.dir, exist_ok=True)
+    if j.files is not None:
+        for fn, content in j.files.items():
+            os.makedirs(os.path.dirname(os.path.join(j.dir, fn)), exist_ok=True)
+            open(os.path.join(j.dir, fn), "wb").write(as_bytes(content))
+        return
     for fn, content in j.extra.items():
         open(os.path.join(j.dir, fn), "wb").write(as_bytes(content))
     if j.mode in ("pf", "ig"):
@@ -426,6 +463,9 @@ def materialise(j):
         open(os.path.join(j.dir, "use.h"), "w").write("int v = VAL;\n#if VAL\n#endif\nclass K { int f(int = VAL); };\n")
 
 
+OUTFILE = {"oc": "o.cxx", "od": "o.in", "oh": "o.txt"}
+
+
 def execute(j, kind, scale=1):
     materialise(j)
     tr = os.path.join(j.dir, "trace.ndjson")
@@ -433,7 +473,7 @@ def execute(j, kind, scale=1):
     if kind == "asan":
         env["ASAN_OPTIONS"] = "detect_leaks=0:abort_on_error=0:exitcode=97"
         env["UBSAN_OPTIONS"] = "print_stacktrace=0:halt_on_error=1:exitcode=98"
-    outs = ["o.cxx", "o.in"] if j.req else []
+    outs = [OUTFILE[c] for c in j.req]
     for o in outs + ["trace.ndjson"]:
         p = os.path.join(j.dir, o)
         if os.path.exists(p):
@@ -446,11 +486,12 @@ def execute(j, kind, scale=1):
             ln = ln.strip()
             if ln.startswith('{"e":"') and ln.endswith("}") and ln[6:10] in ("Pars", "Buil", "Open", "Writ", "Exit"):
                 ev.append(ln)
-    present = [c for c, f in (("oc", "o.cxx"), ("od", "o.in")) if c in j.req and os.path.exists(os.path.join(j.dir, f))]
+    present = [c for c in j.req if os.path.exists(os.path.join(j.dir, OUTFILE[c]))]
     j.res = dict(rc=r.rc, signal=r.signal, timed_out=r.timed_out, wall=round(r.wall, 2), present=present,
                  stderr=r.stderr[-1200:], events=ev,
                  ndiag=len(DIAG.findall(r.stderr)), sanitizer=bool(SANITIZER.search(r.stderr)),
-                 parse_error=(" error: " in r.stderr or "Error in p" in r.stderr or "failed to parse" in r.stderr))
+                 nerr=reported_errors(r.stderr),
+                 parse_error=(reported_errors(r.stderr) > 0 or "Error in p" in r.stderr or "failed to parse" in r.stderr))
     return j
 
 
@@ -473,15 +514,91 @@ def verdict(j):
         return "no-diagnostic", "exit status %s without any diagnostic" % o["rc"]
     if o["rc"] != 0 and o["present"]:
         return "output-after-failure", "exit status %s but left %s" % (o["rc"], o["present"])
+    if j.expect_err and o["rc"] == 0:
+        # replay of the spec's Parse("err") outcome: the value the spec state carries is exit 1, no outputs
+        return "erroneous-input-accepted", "the %s holds an error (%s) but the run exited 0 without reporting it" % (j.role, j.name)
     return None
 
 
 def trace_lines(j):
     o = j.res
-    head = dict(e="Run", tool=j.tool, req=j.req, nfiles=j.nfiles, io=0, unreadable=int(j.unreadable))
+    head = dict(e="Run", tool=j.tool, req=j.req, nfiles=j.nfiles, io=0, unreadable=int(j.unreadable), role=j.role,
+                expect_err=int(j.expect_err))
     obs = dict(e="Observed", rc=(o["rc"] if (o["rc"] is not None and o["rc"] >= 0) else 255), signal=o["signal"],
-               timeout=int(o["timed_out"]), present=o["present"], ndiag=o["ndiag"], loaderr=0)
+               timeout=int(o["timed_out"]), present=o["present"], ndiag=o["ndiag"], nerr=o["nerr"], loaderr=0)
     return [json.dumps(head)] + o["events"] + [json.dumps(obs)]
+
+
+# ---------------------------------------------------------------------------------------
+# File roles: the erroneous text in every place a file can come from.
+ERR_TEXT = {
+    "syntax-error": "struct Before { int a; };\nint broken = = 3;\nstruct After { int z; };\n",
+    "#error": "#ifndef NEVER_CONFIGURED\n#error configuration missing\n#endif\nstruct AfterError { int z; };\n",
+    "open-struct-at-eof": "struct Open {\n  int a;\n",
+    "open-expression-at-eof": "int x = (1 +",
+}
+FINE = "struct Fine%d {\n__published:\n  int v;\n};\n"
+
+
+def role_cases():
+    """(role, files(E), argv-tail) — E is the erroneous text; paths are relative to the run directory,
+    which is the working directory of the tool."""
+    R = []
+
+    def add(role, files, opts, srcs):
+        R.append((role, files, opts, srcs))
+    inc = lambda what: "%s\n" % what + FINE % 1
+    add("command-line file (only)", lambda E: {"src/main.h": E}, [], ["src/main.h"])
+    add("command-line file (first of two)", lambda E: {"src/main.h": E, "src/second.h": FINE % 2}, [], ["src/main.h", "src/second.h"])
+    add("command-line file (second of two)", lambda E: {"src/main.h": FINE % 1, "src/second.h": E}, [], ["src/main.h", "src/second.h"])
+    add("quote-included from the working directory", lambda E: {"src/main.h": inc('#include "e.h"'), "e.h": E}, [], ["src/main.h"])
+    add("quote-included from the includer's directory", lambda E: {"src/main.h": inc('#include "e.h"'), "src/e.h": E}, [], ["src/main.h"])
+    add("quote-included via -I", lambda E: {"src/main.h": inc('#include "e.h"'), "inc/e.h": E}, ["-I", "inc"], ["src/main.h"])
+    add("quote-included via -S", lambda E: {"src/main.h": inc('#include "e.h"'), "sys/e.h": E}, ["-S", "sys"], ["src/main.h"])
+    add("angle-included via -S", lambda E: {"src/main.h": inc("#include <e.h>"), "sys/e.h": E}, ["-S", "sys"], ["src/main.h"])
+    add("angle-included via the second -S directory", lambda E: {"src/main.h": inc("#include <e.h>"), "sysb/e.h": E, "sysa/other.h": FINE % 3},
+        ["-S", "sysa", "-S", "sysb"], ["src/main.h"])
+    add("angle-included via -S, attached option (-Sdir)", lambda E: {"src/main.h": inc("#include <e.h>"), "sys/e.h": E}, ["-Ssys"], ["src/main.h"])
+    add("nested two levels, quote / quote", lambda E: {"src/main.h": inc('#include "mid.h"'), "src/mid.h": '#include "e.h"\n' + FINE % 4, "src/e.h": E},
+        [], ["src/main.h"])
+    add("nested two levels, angle / angle", lambda E: {"src/main.h": inc("#include <mid.h>"), "sys/mid.h": "#include <e.h>\n" + FINE % 4, "sys/e.h": E},
+        ["-S", "sys"], ["src/main.h"])
+    add("nested two levels, quote / angle", lambda E: {"src/main.h": inc('#include "mid.h"'), "src/mid.h": "#include <e.h>\n" + FINE % 4, "sys/e.h": E},
+        ["-S", "sys"], ["src/main.h"])
+    add("nested two levels, angle / quote (system includer's directory)",
+        lambda E: {"src/main.h": inc("#include <mid.h>"), "sys/mid.h": '#include "e.h"\n' + FINE % 4, "sys/e.h": E}, ["-S", "sys"], ["src/main.h"])
+    add("nested two levels, -I / -S", lambda E: {"src/main.h": inc('#include "mid.h"'), "inc/mid.h": "#include <e.h>\n" + FINE % 4, "sys/e.h": E},
+        ["-I", "inc", "-S", "sys"], ["src/main.h"])
+    add("main file after a fine system header", lambda E: {"src/main.h": "#include <ok.h>\n" + E, "sys/ok.h": FINE % 5}, ["-S", "sys"], ["src/main.h"])
+    add("system header, second command-line file fine", lambda E: {"src/main.h": inc("#include <e.h>"), "src/second.h": FINE % 2, "sys/e.h": E},
+        ["-S", "sys"], ["src/main.h", "src/second.h"])
+    add("system header included by the second command-line file", lambda E: {"src/main.h": FINE % 1, "src/second.h": "#include <e.h>\n" + FINE % 2, "sys/e.h": E},
+        ["-S", "sys"], ["src/main.h", "src/second.h"])
+    add("system header also named on the command line", lambda E: {"src/main.h": inc("#include <e.h>"), "sys/e.h": E}, ["-S", "sys"], ["src/main.h", "sys/e.h"])
+    add("system header included twice", lambda E: {"src/main.h": "#include <e.h>\n#include <e.h>\n" + FINE % 1, "sys/e.h": E}, ["-S", "sys"], ["src/main.h"])
+    return R
+
+
+def role_jobs(work):
+    jobs = []
+    for role, files, opts, srcs in role_cases():
+        for kind, E in sorted(ERR_TEXT.items()) + [("no-error", "struct Fine9;\nint fine9_fn(int);\n")]:
+            for tool in ("interrogate", "interrogate-c", "parse_file"):
+                if kind == "no-error" and tool == "interrogate-c":
+                    continue
+                j = Job()
+                j.name, j.mode, j.text, j.extra = "%s / %s" % (kind, role), "role", E, {}
+                j.files = files(E)
+                j.tool = "parse_file" if tool == "parse_file" else "interrogate"
+                j.req = [] if tool == "parse_file" else ["oc", "od", "oh"]
+                out = [] if tool == "parse_file" else ["-oc", "o.cxx", "-od", "o.in", "-oh", "o.txt", "-module", "m", "-library", "l",
+                                                       "-c" if tool == "interrogate-c" else "-python-native"]
+                j.args = out + opts + srcs
+                j.unreadable, j.nfiles = False, len(srcs)
+                j.role, j.expect_err, j.classes = role, kind != "no-error", []
+                j.dir = os.path.join(work, "role%04d" % len(jobs))
+                jobs.append(j)
+    return jobs
 
 
 # ---------------------------------------------------------------------------------------
@@ -537,6 +654,22 @@ def _run(ctx, tier, kind, work, phase, t0):
         raise MachineryError("LexModes: no input ends in mode(s) %s" % sorted(modes - eof))
     ctx.notes["lexmodes"] = dict(inputs=len(recs), modes=len(modes), symbols=len(syms), transitions_on_dumped_paths=len(trans),
                                  eof_modes=len(eof), max_len=maxlen, modes_first_reached_at_max_len=sorted(frontier))
+    # the second lexer: the text of #if / #elif / computed #include / object-like #define
+    idump = os.path.join(work, "iflex.ndjson")
+    ifl = tlc.run("LexModesIfMC", IF_CFG[tier], env={"VERIF_DUMP": idump}, timeout=1200, workers=1)
+    ctx.add_tlc(ifl)
+    tlc.must_ok(ifl, "LexModesIf")
+    irecs = tlc.read_dump(idump)
+    if not irecs:
+        raise MachineryError("LexModesIf dumped no inputs")
+    imodes, itrans, ieof = lex_coverage(irecs)
+    imax = max(len(r["i"]) for r in irecs)
+    ifront = {r["p"][-1] for r in irecs if len(r["i"]) == imax} - {m for r in irecs if len(r["i"]) < imax for m in r["p"]}
+    imissing = [(m, c) for m in sorted(imodes - ifront) for c in sorted(SYMIF) if (m, c) not in itrans]
+    if imissing or imodes - ieof:
+        raise MachineryError("LexModesIf: transitions on no dumped path %s, modes no input ends in %s" % (imissing[:8], sorted(imodes - ieof)))
+    ctx.notes["lexmodes_if"] = dict(inputs=len(irecs), modes=len(imodes), symbols=len(SYMIF), transitions_on_dumped_paths=len(itrans),
+                                    eof_modes=len(ieof), max_len=imax, modes_first_reached_at_max_len=sorted(ifront))
     phase["tlc"] = round(time.time() - t0, 1)
 
     # ---- 2. inputs --------------------------------------------------------------------------
@@ -548,6 +681,19 @@ def _run(ctx, tier, kind, work, phase, t0):
         text = PRELUDE[r["mac"]] + "".join(SYM[c] for c in r["i"])
         lex_inputs.append(("lex:%s:%s" % (r["mac"], " ".join(r["i"])), text, {}))
     edges = edge_inputs(tier)
+    if_inputs = []
+    for n, r in enumerate(irecs):
+        text = "".join(SYMIF[c] for c in r["i"])
+        ctxs = ["if"]
+        if tier == "thorough":
+            ctxs = ["if", "define"] + [["elif"], ["include"], ["if-eof"]][n % 3]
+        else:
+            ctxs += [[], ["elif"], [], ["include"], [], ["define"], [], ["if-eof"]][n % 8]
+        for c in ctxs:
+            if_inputs.append(("iflex:%s:%s" % (c, " ".join(r["i"])), IF_PRELUDE + IF_CONTEXTS[c] % text, {}))
+
+    def if_modes(idx, name, text):
+        return ["pf"] + (["ig"] if idx % 4 == 0 else []) + (["inc"] if idx % 16 == 1 else [])
 
     def lex_modes(idx, name, text):
         if tier == "thorough":
@@ -574,22 +720,29 @@ def _run(ctx, tier, kind, work, phase, t0):
             if "\x00" not in as_text(text):
                 m.append("D")
         return m
-    jobs = make_jobs(lex_inputs, lex_modes, work) + make_jobs(edges, edge_modes, os.path.join(work, "e"))
+    jobs = make_jobs(lex_inputs, lex_modes, work) + make_jobs(edges, edge_modes, os.path.join(work, "e")) + \
+        make_jobs(if_inputs, if_modes, os.path.join(work, "i"))
     for n, j in enumerate(jobs):
         j.jid = n
         j.dir = os.path.join(work, "j%06d" % n)
-    ctx.notes["inputs"] = dict(lexmodes_dumped=len(recs), lexmodes=len(lex_inputs), edge_cases=len(edges), runs=len(jobs))
+    roles = role_jobs(work)
+    for j in roles:
+        j.jid = len(jobs)
+        jobs.append(j)
+    ctx.notes["inputs"] = dict(iflex_texts=len(irecs), iflex_inputs=len(if_inputs), role_runs=len(roles),
+                               lexmodes_dumped=len(recs), lexmodes=len(lex_inputs), edge_cases=len(edges), runs=len(jobs))
     ctx.cov["rule"] = (
         "inputs = every LexModes state TLC keeps (one per VIEW value = mode path) rendered under its prelude + the fixed "
         "list of directive / constant-expression / literal / nesting / byte-level edge cases; each is fed as source to "
         "parse_file, and (stratified by index, all of them for the edge cases) as source / included file / .N command file "
-        "/ -D definition to interrogate and parse_file; non-trivial = the input leaves the scanner's plain code mode or is "
+        "/ -D definition to interrogate and parse_file; + every LexModesIf text in #if (and stratified #elif / computed #include / "
+        "#define / #if-at-EOF) context; + the file-role cases (erroneous text x role of the file x tool); non-trivial = the input leaves the scanner's plain code mode or is "
         "an edge case; distinct = distinct (input bytes, feeding mode)")
 
     # ---- 3. runs -----------------------------------------------------------------------------
     t1 = time.time()
     # long-running edge cases first so that they overlap with the mass of tiny ones
-    order = sorted(jobs, key=lambda j: -len(j.text))
+    order = sorted(jobs, key=lambda j: (not j.classes, -len(j.text)))
     run.pmap(lambda j: execute(j, kind), order)
     # a timeout is re-run once, with twice the limit and a quarter of the parallelism (so that the
     # load this check itself produces cannot make a slow run look like a hang), before it counts
@@ -611,12 +764,18 @@ def _run(ctx, tier, kind, work, phase, t0):
         bad.append((j, v))
         kinds[v[0]] = kinds.get(v[0], 0) + 1
         ctx.violation("%s as %s: %s [%s]" % (j.name[:80], j.mode, v[1], j.res["stderr"].strip().split("\n")[-1][:120]),
-                      dict(name=j.name, mode=j.mode, tool=j.tool, argv=[a[:300] for a in j.args], input=as_text(j.text)[:2000],
-                           input_len=len(j.text), files=sorted(j.extra), observed={k: j.res[k] for k in ("rc", "signal", "timed_out", "present", "wall")},
+                      dict(name=j.name, mode=j.mode, tool=j.tool, role=j.role, argv=[a[:300] for a in j.args], input=as_text(j.text)[:2000],
+                           input_len=len(j.text), files=(j.files if j.files is not None else sorted(j.extra)), observed={k: j.res[k] for k in ("rc", "signal", "timed_out", "present", "wall")},
                            stderr=j.res["stderr"], build=kind),
                       classes=j.classes)
+    silent = [j for j in roles if not j.expect_err and (j.res["rc"] != 0 or j.res["nerr"])]
+    if silent:
+        j = silent[0]
+        raise MachineryError("role layout '%s' fails without the erroneous text: rc=%s %s" % (j.name, j.res["rc"], j.res["stderr"][-300:]))
+    ctx.notes["role_cases"] = dict(roles=len(role_cases()), error_kinds=sorted(ERR_TEXT), runs=len(roles),
+                                   reported_error_and_failed=sum(1 for j in roles if j.expect_err and j.res["nerr"] and j.res["rc"] not in (0, None)))
     ctx.cov["evaluations"] += len(jobs)
-    ctx.cov["distinct_nontrivial"] = len({(as_bytes(j.text), j.mode) for j in jobs
+    ctx.cov["distinct_nontrivial"] = len({(as_bytes(j.text), j.mode, j.name if j.mode == "role" else "", j.tool) for j in jobs
                                          if not j.name.startswith("lex:") or set(j.name.split(":", 2)[2].split()) - {"a", "0", "sp", "R"}})
     ctx.cov["traces_validated_against_impl"] += len(jobs)
     ctx.notes["runs_violating_protocol"] = len(bad)
